@@ -8,6 +8,7 @@ import (
 	"os"
 	"runtime/debug"
 	"sort"
+	"strconv"
 	"strings"
 	"sync"
 	"unsafe"
@@ -24,6 +25,34 @@ type Item struct {
 }
 
 type Ranked []Item
+
+// MarshalJSON keeps witnesses serialisable when a score is NaN / Inf.
+func (it Item) MarshalJSON() ([]byte, error) {
+	if math.IsNaN(it.Score) || math.IsInf(it.Score, 0) {
+		return []byte(fmt.Sprintf(`{"i":%d,"s":"%v"}`, it.Idx, it.Score)), nil
+	}
+	return []byte(fmt.Sprintf(`{"i":%d,"s":%s}`, it.Idx, strconv.FormatFloat(it.Score, 'g', -1, 64))), nil
+}
+
+// UnmarshalJSON accepts both forms.
+func (it *Item) UnmarshalJSON(b []byte) error {
+	var raw struct {
+		I int         `json:"i"`
+		S interface{} `json:"s"`
+	}
+	if err := json.Unmarshal(b, &raw); err != nil {
+		return err
+	}
+	it.Idx = raw.I
+	switch v := raw.S.(type) {
+	case float64:
+		it.Score = v
+	case string:
+		f, _ := strconv.ParseFloat(v, 64)
+		it.Score = f
+	}
+	return nil
+}
 
 // IndexOf maps a result pointer back to its index in cmds by address.
 func IndexOf(cmds []Cmd, p *Cmd) int {
@@ -320,11 +349,30 @@ type OptJSON struct {
 	AllPlatforms    bool               `json:"all_platforms,omitempty"`
 	Platforms       []string           `json:"platforms,omitempty"`
 	NoCrossPlatform bool               `json:"no_cross,omitempty"`
+	NonFiniteBoosts map[string]string  `json:"boosts_nonfinite,omitempty"` // JSON cannot carry NaN / Inf
 }
 
 func OptsJ(o database.SearchOptions) OptJSON {
-	return OptJSON{o.Limit, o.ContextBoosts, o.PipelineOnly, o.PipelineBoost, o.UseFuzzy, o.FuzzyThreshold, o.UseNLP,
-		o.TopTermsCap, o.AllPlatforms, o.Platforms, o.NoCrossPlatform}
+	j := OptJSON{Limit: o.Limit, PipelineOnly: o.PipelineOnly, PipelineBoost: o.PipelineBoost, UseFuzzy: o.UseFuzzy, FuzzyThreshold: o.FuzzyThreshold,
+		UseNLP: o.UseNLP, TopTermsCap: o.TopTermsCap, AllPlatforms: o.AllPlatforms, Platforms: o.Platforms, NoCrossPlatform: o.NoCrossPlatform}
+	if math.IsNaN(j.PipelineBoost) || math.IsInf(j.PipelineBoost, 0) {
+		j.NonFiniteBoosts = map[string]string{"<pipeline_boost>": fmt.Sprint(o.PipelineBoost)}
+		j.PipelineBoost = 0
+	}
+	for k, v := range o.ContextBoosts {
+		if math.IsNaN(v) || math.IsInf(v, 0) {
+			if j.NonFiniteBoosts == nil {
+				j.NonFiniteBoosts = map[string]string{}
+			}
+			j.NonFiniteBoosts[k] = fmt.Sprint(v)
+			continue
+		}
+		if j.ContextBoosts == nil {
+			j.ContextBoosts = map[string]float64{}
+		}
+		j.ContextBoosts[k] = v
+	}
+	return j
 }
 
 func (j OptJSON) Opts() database.SearchOptions {
